@@ -21,6 +21,7 @@ package main
 import (
 	"go/token"
 	"go/types"
+	"regexp"
 	"strings"
 
 	"golang.org/x/tools/go/ssa"
@@ -125,6 +126,45 @@ func c05UnionFacts(a, b []Fact) []Fact {
 type c05Mode struct {
 	reach map[*ssa.Function]bool
 	vals  map[*ssa.Parameter]map[int]bool
+	// the same for integer parameters (a display mode passed as an enumeration instead of a flag): the constants the
+	// parameter can be on the call chains; c05IntUnknown stands for "anything"
+	ivals map[*ssa.Parameter]map[c05IntVal]bool
+}
+
+type c05IntVal struct {
+	k   int64
+	unk bool
+}
+
+var c05IntUnknown = c05IntVal{unk: true}
+
+func c05IsInt(t types.Type) bool {
+	b, ok := t.Underlying().(*types.Basic)
+	return ok && b.Info()&types.IsInteger != 0
+}
+
+func (m *c05Mode) iadd(p *ssa.Parameter, v c05IntVal) bool {
+	s := m.ivals[p]
+	if s == nil {
+		s = map[c05IntVal]bool{}
+		m.ivals[p] = s
+	}
+	if s[v] {
+		return false
+	}
+	s[v] = true
+	return true
+}
+
+func (m *c05Mode) ieval(v ssa.Value) map[c05IntVal]bool {
+	v = c05StripConv(v)
+	if k, ok := constInt(v); ok {
+		return map[c05IntVal]bool{{k: k}: true}
+	}
+	if p, ok := v.(*ssa.Parameter); ok {
+		return m.ivals[p] // nothing known yet: filled in by a later round
+	}
+	return map[c05IntVal]bool{c05IntUnknown: true}
 }
 
 func c05IsBool(t types.Type) bool {
@@ -133,7 +173,7 @@ func c05IsBool(t types.Type) bool {
 }
 
 func c05ModeFrom(root *ssa.Function) *c05Mode {
-	m := &c05Mode{reach: map[*ssa.Function]bool{}, vals: map[*ssa.Parameter]map[int]bool{}}
+	m := &c05Mode{reach: map[*ssa.Function]bool{}, vals: map[*ssa.Parameter]map[int]bool{}, ivals: map[*ssa.Parameter]map[c05IntVal]bool{}}
 	var order []*ssa.Function
 	changed := false
 	enter := func(f *ssa.Function, unknown bool) {
@@ -143,6 +183,9 @@ func c05ModeFrom(root *ssa.Function) *c05Mode {
 		if unknown {
 			for _, p := range f.Params {
 				if c05IsBool(p.Type()) && m.add(p, 2) {
+					changed = true
+				}
+				if c05IsInt(p.Type()) && m.iadd(p, c05IntUnknown) {
 					changed = true
 				}
 			}
@@ -185,7 +228,19 @@ func c05ModeFrom(root *ssa.Function) *c05Mode {
 				if callee == nil || unwrap(callee) != callee || !m.reach[callee] {
 					return
 				}
+				if i.Block() != nil {
+					if excluded, _ := m.judge(factsAt(i.Block())); excluded {
+						return // a call the root's rendering never makes (under `if addWeight` today) passes no values
+					}
+				}
 				for j, p := range callee.Params {
+					if j < len(cc.Args) && c05IsInt(p.Type()) {
+						for v := range m.ieval(cc.Args[j]) {
+							if m.iadd(p, v) {
+								changed = true
+							}
+						}
+					}
 					if !c05IsBool(p.Type()) || j >= len(cc.Args) {
 						continue
 					}
@@ -272,6 +327,32 @@ func (m *c05Mode) judge(facts []Fact) (excluded, unknownFlag bool) {
 			if c05IsBool(x.Type()) && !namedIs(x.X.Type(), "route.Target") {
 				unknownFlag = true
 			}
+		case *ssa.BinOp:
+			// mode == effective / switch mode { case configured: ... }: an integer parameter against a constant
+			if x.Op != token.EQL && x.Op != token.NEQ {
+				continue
+			}
+			a, b := c05StripConv(x.X), c05StripConv(x.Y)
+			if _, isK := constInt(a); isK {
+				a, b = b, a
+			}
+			p, isP := a.(*ssa.Parameter)
+			k, isK := constInt(b)
+			if !isP || !isK || !c05IsInt(p.Type()) {
+				continue
+			}
+			s := m.ivals[p]
+			if len(s) == 0 || s[c05IntUnknown] {
+				unknownFlag = true
+				continue
+			}
+			if (x.Op == token.EQL) == ft.Truth {
+				if !s[c05IntVal{k: k}] {
+					excluded = true // the path needs p == k, and p is never k in this rendering
+				}
+			} else if len(s) == 1 && s[c05IntVal{k: k}] {
+				excluded = true // the path needs p != k, and p is always k
+			}
 		}
 	}
 	return
@@ -306,6 +387,10 @@ func c05ConfiguredWeightFields(c *Ctx) map[string]bool {
 	return out
 }
 
+// c05WeightThenVerb: a format in which the keyword 'weight' is directly followed by a verb and preceded by a verb (the
+// command so far), as in "%s weight %.4f"; log messages ("[WARN] invalid weight %s") do not begin with a verb.
+var c05WeightThenVerb = regexp.MustCompile(`^%[-+# 0]*[0-9]*[sv] (.* )?weight[ =]%`)
+
 // c05WeightKeywordAt: the position just behind the keyword 'weight' in a piece of command text, -1 if it has none.
 func c05WeightKeywordAt(s string) int {
 	has := false
@@ -314,7 +399,9 @@ func c05WeightKeywordAt(s string) int {
 			has = true
 		}
 	}
-	if !has {
+	if !has && !c05WeightThenVerb.MatchString(s) {
+		// not a piece of command text by the G1 criterion (it does not BEGIN with a keyword), but a format that
+		// continues a command: "%s weight %.4f"
 		return -1
 	}
 	from := 0
@@ -723,6 +810,30 @@ func c05IsCut(v ssa.Value) bool {
 	return false
 }
 
+// c05HelperCuts: v is the result of a repository helper that returns its list minus ONE stretch
+// (func dropAt(ts, i) { return append(ts[:i], ts[i+1:]...) }, or a search loop that returns the cut at the first match).
+func c05HelperCuts(v ssa.Value) bool {
+	call, ok := c05StripConv(v).(*ssa.Call)
+	if !ok || call.Call.IsInvoke() {
+		return false
+	}
+	sc := unwrapCallee(&call.Call)
+	if sc == nil || !isRepoFn(sc) || len(sc.Blocks) == 0 {
+		return false
+	}
+	cuts := false
+	eachInstr(sc, func(i ssa.Instruction) {
+		if r, isR := i.(*ssa.Return); isR {
+			for _, res := range r.Results {
+				if sl, isSl := res.Type().Underlying().(*types.Slice); isSl && namedIs(sl.Elem(), "route.Target") && c05IsCut(res) {
+					cuts = true
+				}
+			}
+		}
+	})
+	return cuts
+}
+
 func c05InnermostLoop(loops []*loop, b *ssa.BasicBlock) *loop {
 	var best *loop
 	for _, l := range loops {
@@ -1105,25 +1216,30 @@ func runC05D2(c *Ctx) {
 	const detail = "'route del' removes ALL targets its service/source/destination/tag arguments select, and a route can hold several targets of one service with one URL (they differ in tags or fixed weight: addTarget de-duplicates on all four); a removal that stops at the first match leaves the other targets of the deleted instance in service and keeps a route/host that had to disappear: "
 	nRemovals := 0
 	removers := map[*ssa.Function]bool{}
-	for _, f := range c.AllFns {
-		var removals []*ssa.Store
-		eachInstr(f, func(i ssa.Instruction) {
-			if _, removal := c05TargetsStore(i); removal {
-				removals = append(removals, i.(*ssa.Store))
+	var helperCalls []*ssa.Call // calls of repository helpers that return the list a removal stores
+	done := map[ssa.Instruction]bool{}
+	// a removal is judged where its list is chosen: the store, or the call of a setter that stores the list it is
+	// handed (c05TargetsWrites)
+	for _, w := range c05IndexWrites(c).all {
+		if !w.removal || done[w.at] {
+			continue
+		}
+		done[w.at] = true
+		f := w.at.Parent()
+		nRemovals++
+		removers[f] = true
+		construct := fnKey(f) + "|removal applies the selection to every target"
+		if c05IsCut(w.val) || c05HelperCuts(w.val) {
+			c.check(rule, construct, w.at.Pos(), w.base != nil && c05CutRepeats(w.at, w.base, 0),
+				detail+"this store cuts ONE stretch out of Route.Targets and is not inside a loop over that route which goes on after the cut (in this function or in every caller)")
+			continue
+		}
+		d := c05FilterDefect(f, w.val, 0)
+		c.check(rule, construct, w.at.Pos(), d == "", detail+d)
+		if call, ok := c05StripConv(w.val).(*ssa.Call); ok {
+			if sc := unwrapCallee(&call.Call); sc != nil && isRepoFn(sc) && !call.Call.IsInvoke() {
+				helperCalls = append(helperCalls, call)
 			}
-		})
-		for _, st := range removals {
-			nRemovals++
-			removers[f] = true
-			base, _ := fieldOf(st.Addr, "route.Route", "Targets")
-			construct := fnKey(f) + "|removal applies the selection to every target"
-			if c05IsCut(st.Val) {
-				c.check(rule, construct, st.Pos(), c05CutRepeats(st, base, 0),
-					detail+"this store cuts ONE stretch out of Route.Targets and is not inside a loop over that route which goes on after the cut (in this function or in every caller)")
-				continue
-			}
-			d := c05FilterDefect(f, st.Val, 0)
-			c.check(rule, construct, st.Pos(), d == "", detail+d)
 		}
 	}
 	// the predicates handed to the removals
@@ -1158,6 +1274,14 @@ func runC05D2(c *Ctx) {
 				if cc := s.Common(); k < len(cc.Args) {
 					judge(cc.Args[k], s)
 				}
+			}
+		}
+	}
+	// predicates handed to a helper that builds the stored list (r.setTargets(without(r.Targets, pred)))
+	for _, call := range helperCalls {
+		for _, a := range call.Call.Args {
+			if _, isFn := a.Type().Underlying().(*types.Signature); isFn {
+				judge(a, call)
 			}
 		}
 	}
